@@ -182,6 +182,10 @@ fn main() {
             }
             ChildEnd::Signal(sig) => {
                 say(format!("replay: the process died with signal {} on this case", sig));
+                if let Some(Some(line)) = with_property!(id.as_str(), known_death_line, file, &root) {
+                    say(line);
+                    std::process::exit(0);
+                }
                 say(format!("VIOLATION property={} replay={}", id, file));
                 std::process::exit(1);
             }
